@@ -17,7 +17,8 @@ from .common import rng, shard_slice, stable_hash, muted
 LEVEL = 'exploration'
 RULE = ('random netlist plans from the block catalogue (3-40 blocks = 5-250 leaves, registers in feedback, structural wrappers), '
         'each instantiated under identity/reverse/random permutations of block order and of wire order (all n! for n <= 5 blocks), '
-        'reversed/shuffled inverter chains of 50-400 (and 1001) leaves, and plans with one injected loop (self, 2, n, through a wrapper, '
+        'designs with gated clock domains (wrappers whose ClockDriver enable is a poked input, a toggling register or a delayed input, holding registers and '
+        'combinational leaves fed from outside and inside the domain), reversed/shuffled inverter chains of 50-400 (and 1001) leaves, and plans with one injected loop (self, 2, n, through a wrapper, '
         'rewired back edge, behind a sorted prefix; through a Reg = legal); a case is (plan, block order, wire order); '
         'non-trivial = the initial leaf list of that order is not already topological (>= 1 inverted dependency edge) '
         'or the plan is cyclic; distinct by content hash of (plan, orders)')
@@ -44,13 +45,28 @@ def stateless(leaf):
     return True
 
 
-def fixpoint_check(run, sim, when, case, stats):
-    """Monitor 1. Returns True when every stateless leaf is at its fixpoint."""
+def leaf_driver(leaf):
+    """clock driver in force for a leaf (public py4hw.getObjectClockDriver); None when it cannot be determined"""
+    try:
+        import py4hw
+        return py4hw.getObjectClockDriver(leaf)
+    except Exception:
+        return None
+
+
+def fixpoint_check(run, sim, when, case, stats, leaves=None, gated_off=()):
+    """Monitor 1. Returns True when every stateless leaf is at its fixpoint.
+    leaves: the propagatable leaves found by the harness' own traversal (default sim.propagatables);
+    gated_off: ids of the clock drivers whose enable wire was 0 during the clock cycle just simulated -- gating a clock
+    freezes registers only, so the leaves of such a domain are judged like all others (and counted)."""
     ok = True
-    for leaf in list(sim.propagatables):
+    for leaf in list(leaves if leaves is not None else sim.propagatables):
         if not stateless(leaf):
             stats['fixpoint_skipped_stateful'] = stats.get('fixpoint_skipped_stateful', 0) + 1
             continue
+        off = bool(gated_off) and id(leaf_driver(leaf)) in gated_off
+        if off:
+            stats['fixpoint_checks_in_gated_off_domain'] = stats.get('fixpoint_checks_in_gated_off_domain', 0) + 1
         outs = [p.wire for p in leaf.outPorts if p.wire is not None]
         before = [w.value for w in outs]
         hooks.real(leaf, 'propagate')()
@@ -60,8 +76,9 @@ def fixpoint_check(run, sim, when, case, stats):
         if before != after:
             ok = False
             cls = type(leaf).__name__
-            run.violation('not_fixpoint', dict(block=cls, when=when), case, expected=after, observed=before,
-                          what='%s %s is not at its fixpoint %s: outputs %r, recomputed %r' % (cls, leaf.getFullPath(), when, before, after))
+            run.violation('not_fixpoint', dict(block=cls, when=when, domain_gated_off=off), case, expected=after, observed=before,
+                          what='%s %s is not at its fixpoint %s%s: outputs %r, recomputed %r' % (
+                              cls, leaf.getFullPath(), when, ' (its clock domain was gated off in this cycle)' if off else '', before, after))
             break
     return ok
 
@@ -172,20 +189,45 @@ def run_order(run, plan, bo, wo, hist, stats, meta, late=None):
             return ('accepted_cyclic', inv, cyc)
         ok = schedule_check(run, b, sim, leaves, succ, case, stats)
         if late is None:
-            ok = fixpoint_check(run, sim, 'construct', case, stats) and ok
+            ok = fixpoint_check(run, sim, 'construct', case, stats, leaves) and ok
             snaps.append(netgen.wire_values(b.hw))
         else:
             stats['late_addition_cases'] = stats.get('late_addition_cases', 0) + 1
             snaps.append(None)      # a second getSimulator() only re-sorts; values are judged after the next clk()
+        # clock drivers of all leaves, and which of them are gated off at the moment the edge is simulated
+        drivers = {}
+        for l in netgen.my_leaves(b.hw):
+            d = leaf_driver(l)
+            if d is not None and getattr(d, 'enable', None) is not None:
+                drivers[id(d)] = d
+        off_now = set()
+
+        def on_event(ev):
+            if ev[2] == 'cycle':        # start of Simulator._clk_cycle: pre-edge values are in place
+                off_now.clear()
+                for k, d in drivers.items():
+                    try:
+                        if d.enable.get() == 0:
+                            off_now.add(k)
+                    except Exception:
+                        pass
+        if drivers:
+            rec.subscribers.append(on_event)
+            stats['designs_with_gated_domains'] = stats.get('designs_with_gated_domains', 0) + 1
         for vals in hist[1:]:
             b.poke(vals)
+            off_now.clear()
             try:
                 with muted():
                     sim.clk(1)
             except Exception as e:
                 run.violation('sim_raises', dict(exc=type(e).__name__), case, observed=repr(e)[:200], what='clk raises %r' % e)
                 return ('error', inv, cyc)
-            ok = fixpoint_check(run, sim, 'after_clk', case, stats) and ok
+            if off_now:
+                stats['cycles_with_a_domain_gated_off'] = stats.get('cycles_with_a_domain_gated_off', 0) + 1
+            elif drivers:
+                stats['cycles_with_all_gated_domains_running'] = stats.get('cycles_with_all_gated_domains_running', 0) + 1
+            ok = fixpoint_check(run, sim, 'after_clk', case, stats, leaves, set(off_now)) and ok
             snaps.append(netgen.wire_values(b.hw))
         for k in ('construct:propagate', 'pre:propagate', 'propagating:propagate', 'clocking:clock', 'construct:sort'):
             stats['ev_' + k] = stats.get('ev_' + k, 0) + rec.phase_counts.get(k, 0)
@@ -310,6 +352,21 @@ def run_check(run, tier, seed, shard):
         if stats['dags'] in (1, 7, 40):
             run.sample(dict(kind='dag', index=i, blocks=len(plan['blocks']), first_blocks=[(b['id'], b.get('entry', b['kind'])) for b in plan['blocks'][:6]]))
 
+    # 1b. gated clock domains: wrappers with their own ClockDriver(enable=poked input / toggling register / delayed input)
+    #     holding registers and combinational leaves fed from outside and from inside the domain
+    n_gated = 70 if quick else 3200
+    for i in shard_slice(range(n_gated), shard):
+        if time.time() > deadline or run.too_many:
+            stats['gated_skipped_time'] = stats.get('gated_skipped_time', 0) + 1
+            continue
+        rnd = rng(seed, 'C04', 'gated', i)
+        plan = netgen.gen_gated(rnd, rnd.randint(2, 9) if quick else rnd.randint(2, 20), tier=tier, prim_only=(i % 3 == 0))
+        check_plan(run, plan, rnd, 5 if quick else 10, 8 if quick else 12, stats, dict(kind='gated', index=i), exhaustive_max=0)
+        stats['gated_plans'] = stats.get('gated_plans', 0) + 1
+        if stats['gated_plans'] in (1, 9):
+            run.sample(dict(kind='gated', index=i, blocks=len(plan['blocks']), gated_scopes=plan['gated'],
+                            clocks=[s['clock'] for s in plan['scopes'] if s.get('clock')]))
+
     # 2. inverter chains in reverse / random order (many-pass regime of the sorter)
     lengths = [50, 173, 400] if quick else [50, 64, 100, 173, 256, 300, 400, 333, 77, 128, 200, 350, 90, 150, 222, 380]
     for j in shard_slice(range(len(lengths)), shard):
@@ -379,6 +436,10 @@ def post_merge(run, tier, seed):
     rej = run.extra.get('rejection_table', {})
     if not any(':cyclic:' in k for k in rej):
         run.inconclusive.append('rejection monitor saw no cyclic netlist')
+    if not c.get('fixpoint_checks_in_gated_off_domain'):
+        run.inconclusive.append('no fixpoint check was made on a leaf of a gated-off clock domain')
+    if c.get('gated_skipped_time'):
+        run.inconclusive.append('watchdog: %d gated-domain cases skipped' % c['gated_skipped_time'])
     if c.get('dags_skipped_time') or c.get('cyclic_skipped_time'):
         run.inconclusive.append('watchdog: %d DAG and %d cyclic cases skipped' % (c.get('dags_skipped_time', 0), c.get('cyclic_skipped_time', 0)))
 
